@@ -176,12 +176,17 @@ class _Gen:
             self.cond = self.value(is_bool=True)
             inputs.append(self.cond)
             inits = [self.value(init=True) for _ in range(rng.randrange(0, 3))]
+            if rng.random() < 0.45:
+                # an overridable default: a value that is BOTH a graph input and an initializer
+                if not inits or rng.random() < 0.5:
+                    inits.append(self.value(init=True))
+                inputs.insert(rng.randrange(len(inputs) + 1), rng.choice(inits))
         else:
             if self.mode == "structural" and rng.random() < 0.4:
                 inputs = [self.value() for _ in range(rng.randrange(1, 3))]
             if rng.random() < 0.25:
                 inits = [self.value(init=True)]
-        local = [v for v in inputs if not self.values[v]["bool"]] + inits
+        local = list(dict.fromkeys([v for v in inputs if not self.values[v]["bool"]] + inits))
         nodes = []
         n_nodes = rng.randrange(1, budget + 1) if root else rng.randrange(0 if n_out is None else 1, 3)
         for _ in range(n_nodes):
@@ -555,6 +560,8 @@ def source_values(B: Built, feed_seed: int) -> dict | None:
     rng = random.Random(feed_seed)
     feeds = {}
     for v in B.root.inputs:
+        if v.is_initializer():
+            continue        # input with a default: the source runs on the default, which is what extraction carries along
         if v.type.dtype == ir.DataType.BOOL:
             feeds[v.name] = np.array(rng.random() < 0.5)
         else:
@@ -584,6 +591,9 @@ def oracle_extract(spec: dict, B: Built, src: dict, inputs: list, outputs: list,
       enclosing scope, unique non-empty names) and boundary references that denote top-level values of the
       source; anything else is only compared with the model, not judged;
     * "raises instead": any exception type;
+    * a value that is both a graph input and an initializer (an overridable default) and is needed but not named
+      in `inputs` is carried along as an initializer — the cut is bounded, extract must not raise; the source is
+      evaluated on the default;
     * "every initializer they need": result initializers ⊇ needed ones and ⊆ needed ∪ listed-input initializers."""
     if spec["flags"] or not outputs:
         return []
@@ -671,7 +681,7 @@ def oracle_analyze(spec: dict, obs: dict) -> list[str]:
 
 def top_values(spec: dict) -> list[int]:
     root = spec["root"]
-    return root["inputs"] + root["inits"] + [o for n in root["nodes"] for o in n["outs"]]
+    return list(dict.fromkeys(root["inputs"] + root["inits"] + [o for n in root["nodes"] for o in n["outs"]]))
 
 
 def mk_ref(spec: dict, v: int, by_name: bool):
